@@ -207,7 +207,15 @@ func c13R2R3R4(w *World, r *Report) {
 			r.check(f.Must("ok:Update"), "C13.R3", fmt.Sprintf("merge:tombstone(source)#%d", nSrc), w.instrPos(in), "source removed only after the commit", "a source file is tombstoned on a path that has not passed Update-ok: a failed merge would delete sole copies of data")
 		case "WriteOperation":
 			nOut++
-			r.check((f.Must("fail:emg") || f.Must("fail:Update")) && !f.May("ok:Update"), "C13.R3", fmt.Sprintf("merge:tombstone(output)#%d", nOut), w.instrPos(in), "output removed only after a failure", "a merge output is tombstoned on a path that may have committed it")
+			// judged per way of reaching the site (a shared cleanup helper is
+			// reached from the group-failure edge and from the Update-failure edge)
+			okOut := !f.May("ok:Update")
+			for _, d := range fl.Disjuncts(in) {
+				if !(d.Must("fail:emg") || d.Must("fail:Update")) {
+					okOut = false
+				}
+			}
+			r.check(okOut, "C13.R3", fmt.Sprintf("merge:tombstone(output)#%d", nOut), w.instrPos(in), "output removed only after a failure", "a merge output is tombstoned on a path that may have committed it")
 		default:
 			r.undecided("C13.R3", "merge:tombstone(?)", w.instrPos(in), "TombstoneFile on "+w.path(c.Args[1])+": cannot tell source from output")
 		}
